@@ -182,6 +182,13 @@ def gen_shape(rng, kind, stream, size_lo=1e-2, size_hi=1e2):
     """A shape in the domain D (sizes in [size_lo, size_hi], placed within 1e3 of the origin)."""
     sh = dict(kind=kind, stream=stream)
     sz = lambda: gen_size(rng, stream, size_lo, size_hi)  # noqa: E731
+    if stream == "degen":
+        # almost equal sizes: every size is the same number up to a relative 1e-7 .. 1e-4 (shortcuts
+        # like np.allclose(radii, radii[0]) mistake such shapes for the symmetric special case)
+        base = gen_size(rng, "random", max(size_lo, 0.05), min(size_hi, 20.0))
+
+        def sz():  # noqa: E731,F811
+            return base * (1.0 + rng.choice([-1.0, 1.0]) * 10 ** rng.uniform(-7, -4)) if rng.random() < 0.8 else base
     if kind == "sphere":
         sh.update(c=gen_translation(rng, stream), r=sz())
     elif kind in ("box", "cylinder", "capsule", "ellipsoid", "cone"):
@@ -191,9 +198,9 @@ def gen_shape(rng, kind, stream, size_lo=1e-2, size_hi=1e2):
         elif kind == "ellipsoid":
             sh.update(radii=[sz(), sz(), sz()])
         elif kind == "cylinder":
-            sh.update(r=sz(), l=sz())
+            sh.update(r=sz(), l=sz() * (2.0 if stream == "degen" else 1.0))
         else:
-            sh.update(r=sz(), h=sz())
+            sh.update(r=sz(), h=sz() * (2.0 if stream == "degen" and kind == "capsule" else 1.0))
     elif kind == "disk":
         Rm = gen_rotation(rng, stream)
         sh.update(c=gen_translation(rng, stream), r=sz(), n=[Rm[i][2] for i in range(3)])
